@@ -242,6 +242,30 @@ func (e *Exec) runHeap() *Violation {
 			runtime.GC()
 		}
 	}
+	// queries that find nothing: absent keys, prefixes and ranges without a match, and
+	// every sequence kind on whatever the tree holds at the moment (possibly nothing).
+	// A query path that registers something and only unregisters it on the way out of
+	// a non-empty result poisons everything after it.
+	drain := func(op string, k, k2 []byte, n uint) {
+		stop := 3
+		api.Seq(op, k, k2, n)(func([]byte, uint64, bool) bool { stop--; return stop > 0 })
+	}
+	noMatch := func() {
+		a := absent[r.Intn(len(absent))]
+		api.Search(a)
+		if kt.HasPrefix() && len(a) > 0 && canDeleteAbsent {
+			drain("prefix", a, nil, 0)
+		}
+		if kt.Kind != "collation" && canDeleteAbsent {
+			drain("range", a, a, 0)
+		}
+		drain("all", nil, nil, 0)
+		drain("back", nil, nil, 0)
+		drain("topk", nil, nil, 2)
+		drain("botk", nil, nil, 2)
+		api.Min()
+		api.Max()
+	}
 	msg := guard(func() {
 		base, baseObj := liveHeap()
 		fill := func(ks [][]byte) {
@@ -268,7 +292,11 @@ func (e *Exec) runHeap() *Violation {
 				return u64bytes(normField(kt.T, kt.Bits32, counter*2654435761))
 			}
 			round := make([][]byte, S)
+			noMatch() // on the never-used tree
 			for rd := 0; rd < rounds; rd++ {
+				if rd%16 == 1 {
+					noMatch() // on the emptied tree
+				}
 				cur := keys[:S]
 				if s.Pad == 1 {
 					for j := range round {
@@ -365,6 +393,9 @@ func (e *Exec) runHeap() *Violation {
 			for i := 0; i < N; i++ {
 				api.Insert(keys[r.Intn(S)], nextID)
 				nextID++
+				if i%2048 == 7 {
+					noMatch()
+				}
 				tick(1)
 			}
 		case "hchurn":
@@ -382,6 +413,9 @@ func (e *Exec) runHeap() *Violation {
 					api.Insert(all[j], nextID)
 					nextID++
 					present[j] = true
+				}
+				if i%2048 == 7 {
+					noMatch()
 				}
 				tick(1)
 			}
